@@ -1,6 +1,10 @@
 """C17 — one document, one meaning: formats, tools and default algorithm agree.
 
-Tie: (A) `_detect_format` on every hint combination vs the model; (B) every generated document,
+Tie: (A) `_detect_format` on every hint combination vs the model; (A') the parser dispatch (`parse_policy_text/bytes`, `_parse_yaml`) and the
+command functions (`_validate_doc`, `cmd_lint/validate/check`, `main`) translated from the current source and proved equal to the model for every
+outcome of their collaborators (Run/C17_cli_translated.lean), the real functions driven with stub collaborators against the model and the
+translation on every outcome combination of a small scope, the delivery paths' parser calls / the validator call / the default-algorithm literals
+read syntactically and compared with pinned expectations resp. the probed defaults; (B) every generated document,
 rendered as JSON and YAML, delivered through parse_policy_text/bytes, FilePolicySource, faked HTTP and
 S3 and the CLI, must parse to the identical object and give identical decisions; (C) validator / CLI
 statuses vs the bundled schema's verdict and the model's status function; (D) the default algorithm:
@@ -592,7 +596,10 @@ def check_defaults(run: lib.Run, audit: dict, violations: list, scale: int = 1):
 
 
 def check(run: lib.Run, audit: dict) -> int:
-    run.rule = ("A: all 7×9×11 (fmt, content-type, filename) combinations; B/C: grammar documents and 14 kinds of single-point mutations, each as JSON and "
+    run.rule = ("A: all 7×9×11 (fmt, content-type, filename) combinations; A': command × --policyset × --strict × 11 document shapes × validator outcome per "
+                "validated value (ok / ValidationError / RuntimeError / RecursionError / KeyboardInterrupt / TypeError) × lint outcome, read/parse failures × "
+                "paths, hint combinations × parser outcomes, main × argv × parse_args outcome × command outcome, + seeded random combinations: real "
+                "functions with stub collaborators vs model vs translation; B/C: grammar documents and 14 kinds of single-point mutations, each as JSON and "
                 "YAML through 20 delivery paths (parse_policy_text/bytes with conflicting hints, FilePolicySource .json/.yaml/.yml/.YAML, faked HTTP ×4, "
                 "faked S3 ×2) and the CLI (validate/check × file format × --policyset × --strict); D: the 2-rule witness on 6 paths + linter, random "
                 "algorithm-less (absent/null/empty, at any level) documents on the engine. non-trivial = document with rules that parsed identically / "
@@ -624,6 +631,14 @@ def check(run: lib.Run, audit: dict) -> int:
 def replay(run: lib.Run, audit: dict, path: str) -> int:
     rp = json.load(open(path))
     c = rp.get("case") or rp.get("first")
+    if c is None:
+        print("recorded:", json.dumps(rp, default=str)[:3000])
+        return 0
+    if "function" in c and "collaborator_outcomes" in c:
+        import clicases
+        ext = {n: [[a, tuple(o)] for a, o in rows] for n, rows in c["collaborator_outcomes"].items()}
+        print("real function now:", clicases.run_real(c["function"], c["arguments"], ext))
+        print("model now:", proto.run_driver([{"cmd": "cli-model", **json.loads(clicases.line(c["function"], c["arguments"], ext))}])[0])
     if "request" in c and "policy" in c:
         print("engine now:", real.run_guard(c["policy"], c["request"], c.get("cfg") or {}))
     print("recorded:", json.dumps(c, default=str)[:1500])
